@@ -38,7 +38,7 @@ class LinkNative(Contract):
     def native_cases(self, tier, rng):
         for rx, tx in EM_PAIRS:
             for direction in ("rx.transmitters=tx", "tx.receivers=rx"):
-                for scenario in ("edit-both-sides", "reopen-edit-unread", "relink", "copy", "components-then-partner-edit"):
+                for scenario in ("edit-both-sides", "reopen-edit-unread", "relink", "relink-from-the-other-side", "copy", "components-then-partner-edit"):
                     yield {"family": "em", "rx": rx, "tx": tx, "direction": direction, "scenario": scenario}
                 # linking by assigning the survey description with the identifiers given as text
                 for form in ("plain", "braces"):
@@ -137,6 +137,18 @@ class LinkNative(Contract):
                 else:
                     tx.receivers = rx2
                     bad = both_ids(rx2, tx, "after re-linking the transmitters to a second receiver")
+                if bad:
+                    return f"{bad} ({case})"
+            if case["scenario"] == "relink-from-the-other-side":
+                # the second partner claims the entity: the entity's own getter must follow what is now recorded
+                tx2 = TX.create(ws, vertices=_verts(off=5.0), name="tx2")
+                rx2 = RX.create(ws, vertices=_verts(off=6.0), name="rx2")
+                if case["direction"].startswith("rx"):
+                    tx2.receivers = rx
+                    bad = both_ids(rx, tx2, "after a second transmitter entity took the receivers over")
+                else:
+                    rx2.transmitters = tx
+                    bad = both_ids(rx2, tx, "after a second receiver entity took the transmitters over")
                 if bad:
                     return f"{bad} ({case})"
             if case["scenario"] == "copy":
@@ -465,6 +477,7 @@ class _LinkSet(Contract):
         new = Opaque("new-partner", cls=getattr(objects, self.partner_cls))
         new.attrs["uid"] = Opaque("new-partner.uid")
         me.attrs["_" + self.field] = old
+        me.attrs["type"] = "Transmitters" if "Transmitters" in self.self_cls else "Receivers"  # what the class's type property answers
 
         def edit(I, a, kw):
             I.event("edit_em_metadata", entries=a[0], cached=me.attrs.get("_" + self.field))
@@ -482,6 +495,9 @@ class _LinkSet(Contract):
         ctx.oblige("the-link-is-recorded-in-the-shared-metadata", len(edits) == 1 and isinstance(edits[0]["entries"], PDict) and edits[0]["entries"].items.get(self.key) is e["new"].attrs["uid"])
         ctx.oblige("the-cached-partner-is-the-new-one-when-the-metadata-is-propagated", len(edits) == 1 and edits[0]["cached"] is e["new"])
         ctx.oblige("the-getter-returns-the-new-partner-afterwards", e["me"].attrs.get("_" + self.field) is e["new"])
+        back = "_receivers" if self.field == "transmitters" else "_transmitters"
+        ctx.oblige("the-new-partner-resolves-this-entity-from-now-on", e["new"].attrs.get(back) is e["me"],
+                   note=f"the partner's cached {back[1:]} still names whoever it was linked to before: its getter disagrees with the identifiers just recorded on both entities")
 
 
 class TransmittersSet(_LinkSet):
